@@ -1,6 +1,7 @@
 package main
 
 import (
+	"go/token"
 	"fmt"
 	"go/types"
 	"reflect"
@@ -243,7 +244,82 @@ func checkC12(cx *Ctx, r *Report) {
 						if b, isB := call.Call.Value.(*ssa.Builtin); !isB || b.Name() != "append" {
 							continue
 						}
-						skip := iterationCanSkip(fx.info(h), call.Block())
+						// leaving out an entry because the same designator was taken before (a set of what was already
+						// appended, filled at the append) cannot empty a non-empty request: the first entry is always kept
+						seenBefore := func(b *ssa.BasicBlock) bool {
+							for _, a := range fx.AtomsAtBlock(b) {
+								if a.Op != "TRUE" || a.Neg {
+									continue
+								}
+								ex, isE := stripNot(a.Cond).(*ssa.Extract)
+								if !isE || ex.Index != 1 {
+									continue
+								}
+								lk, isL := ex.Tuple.(*ssa.Lookup)
+								if !isL || !lk.CommaOk {
+									continue
+								}
+								if _, isMake := lk.X.(*ssa.MakeMap); !isMake {
+									continue
+								}
+								// every insertion into the set happens in the block of the append
+								okSet := false
+								for _, ref := range *lk.X.Referrers() {
+									if mu, isMU := ref.(*ssa.MapUpdate); isMU {
+										okSet = mu.Block() == call.Block()
+										if !okSet {
+											break
+										}
+									}
+								}
+								if okSet {
+									return true
+								}
+							}
+							return false
+						}
+						isSetHit := func(cond ssa.Value) bool {
+							ex, isE := cond.(*ssa.Extract)
+							if !isE || ex.Index != 1 {
+								return false
+							}
+							lk, isL := ex.Tuple.(*ssa.Lookup)
+							if !isL || !lk.CommaOk {
+								return false
+							}
+							if _, isMake := lk.X.(*ssa.MakeMap); !isMake {
+								return false
+							}
+							okSet := false
+							for _, ref := range *lk.X.Referrers() {
+								if mu, isMU := ref.(*ssa.MapUpdate); isMU {
+									okSet = mu.Block() == call.Block()
+									if !okSet {
+										break
+									}
+								}
+							}
+							return okSet
+						}
+						seenBeforeEdge := func(b *ssa.BasicBlock, k int) bool {
+							if len(b.Instrs) == 0 {
+								return false
+							}
+							ifi, isIf := b.Instrs[len(b.Instrs)-1].(*ssa.If)
+							if !isIf {
+								return false
+							}
+							c, pol := ifi.Cond, k == 0
+							for {
+								u, isU := c.(*ssa.UnOp)
+								if !isU || u.Op != token.NOT {
+									break
+								}
+								c, pol = u.X, !pol
+							}
+							return pol && isSetHit(c)
+						}
+						skip := iterationCanSkipUnlessEdge(fx.info(h), call.Block(), seenBefore, seenBeforeEdge)
 						r.Check(!skip, "R-GUARD", "attr:queried-list-append@"+w.InstrPos(call), w.InstrPos(call), "every requested attribute is passed on to the filter (no iteration skips the append)", "the helper that prepares the list of requested attributes can leave one out: if all are dropped the 'nothing requested - return everything' branch discloses the whole record")
 					}
 				}
